@@ -1,18 +1,22 @@
 package larking
 
 import (
+	"bytes"
+	"context"
 	"encoding/base64"
 	"net/http"
 	"net/url"
 	"strconv"
 	"strings"
 
+	"google.golang.org/grpc"
 	"google.golang.org/grpc/codes"
 	"google.golang.org/grpc/metadata"
 	"google.golang.org/grpc/status"
 )
 
 func init() {
+	vfHarnesses["VerifH_entry_empty"] = VerifH_entry_empty
 	vfHarnesses["VerifH_entry"] = VerifH_entry
 	vfHarnesses["VerifH_grpcweb"] = VerifH_grpcweb
 }
@@ -222,4 +226,48 @@ func VerifH_grpcweb() {
 	if major == 2 {
 		vfCover("http2")
 	}
+}
+
+// VerifH_entry_empty (C09, C11): a mux on which nothing has been registered yet: every entry (gRPC,
+// gRPC-web, transcoding, WebSocket upgrade) answers without a crash and without success, and
+// DropConn of an unknown connection reports false.
+func VerifH_entry_empty() {
+	mux, err := NewMux()
+	if err != nil {
+		vfFail("NewMux failed")
+	}
+	vfCheck(!mux.DropConn(context.Background(), new(grpc.ClientConn)), "DropConn of an unknown connection on an empty mux did not report false")
+	h := http.Header{}
+	major := 1
+	method, path := "POST", "/vf.S/M0"
+	switch vfChoice(4) {
+	case 0:
+		h["Content-Type"] = []string{"application/grpc"}
+		major = 2
+		vfCover("grpc")
+	case 1:
+		h["Content-Type"] = []string{"application/grpc-web"}
+		vfCover("grpc-web")
+	case 2:
+		method, path = "GET", "/v1/things/x"
+		vfCover("http")
+	default:
+		method, path = "GET", "/v1/things/x"
+		h["Upgrade"] = []string{"websocket"}
+		h["Connection"] = []string{"Upgrade"}
+		h["Sec-Websocket-Version"] = []string{"13"}
+		h["Sec-Websocket-Key"] = []string{"dGhlIHNhbXBsZSBub25jZQ=="}
+		vfCover("websocket")
+	}
+	r := &http.Request{Method: method, URL: &url.URL{Path: path}, Header: h, Host: "h",
+		Body: vfNopCloser{&vfWholeReader{data: []byte{0, 0, 0, 0, 0}}}, ContentLength: 5, ProtoMajor: major, ProtoMinor: 1}
+	w := newFakeRW()
+	mux.ServeHTTP(w, r)
+	w.finish()
+	gs, hasGS := w.trailer("Grpc-Status")
+	if !hasGS {
+		gs = w.sentHeader["Grpc-Status"]
+	}
+	ok := w.status >= 400 || (len(gs) == 1 && gs[0] != "0") || bytes.Contains(w.body, []byte("grpc-status: 12")) || bytes.Contains(w.body, []byte("grpc-status:12"))
+	vfCheck(ok, "a request to a mux with nothing registered was answered as a success")
 }
